@@ -403,6 +403,14 @@ pub fn run(ctx: &Ctx) -> Vec<Eng> {
                 e.transitions += run_case(kind, &seq, e);
             });
         }
+        {
+            // periodic round sequences: many rejections / errors / silent rounds in a regular pattern
+            par_periodic(&mut e, nsym, 2, 32, budget, |seq, e| run_case(kind, seq, e));
+            par_periodic(&mut e, NPART, if ctx.thorough { 4 } else { 3 }, 32, budget, |seq, e| run_case(kind, seq, e));
+            // long runs around 2^8 / 2^9 rounds
+            par_long(&mut e, nsym, 1, &LONG_LENS, budget, |seq, e| run_case(kind, seq, e));
+            par_long(&mut e, NPART, 2, &LONG_LENS, budget, |seq, e| run_case(kind, seq, e));
+        }
         if ctx.thorough {
             let cases = deviation_cases(hz, NPART - 1, 3);
             par_cases(&mut e, &cases, budget, |c, e| {
@@ -416,6 +424,7 @@ pub fn run(ctx: &Ctx) -> Vec<Eng> {
             });
         }
         e.bounds.push_str(&format!("; plus all {}-round sequences within {} deviations of the default round over the full alphabet, all 40-round sequences within 1 deviation{}", hz, k, if ctx.thorough { " and within 3 deviations over the partner options" } else { "" }));
+        e.bounds.push_str(&format!("; plus periodic sequences of 32 rounds with at most one deviation: every primitive word of length <= 2 over the full alphabet ({} sequences) and of length <= {} over the partner options ({} sequences)", periodic_count(nsym, 2, 32), if ctx.thorough { 4 } else { 3 }, periodic_count(NPART, if ctx.thorough { 4 } else { 3 }, 32)));
         out.push(e);
     }
     out
